@@ -61,7 +61,9 @@ _MORE = {
             "enable/disable/registry/KeyError-unchanged: bounded (seeded random interleavings).", "contract-based deductive verification (raises-iff, frame on active keys) + bounded stand-in"),
     "C12": ("BOUNDED STAND-IN ONLY, DataFrame/CSV path only: exhaustive small tables incl. malformed variants vs the source table. GEFF path not covered.", "bounded stand-in (no obligation discharged)"),
     "C13": ("BOUNDED STAND-IN ONLY: every 2x3 label array x every <=3 detections x id assignments incl. chained/permuted maps and id 0.", "bounded stand-in (no obligation discharged)"),
-    "C15": ("BOUNDED STAND-IN ONLY: sampled forests/subsets, CSV and GEFF, with/without segmentation, vs ancestor closure (minimality by Lean M5 on the spec side).", "bounded stand-in (no obligation discharged)"),
+    "C15": ("filter_graph_with_ancestors proved to return exactly the selection plus all ancestors (loop invariant over the set iteration, symbolic graph; closure/minimality "
+            "lemma M5 in Lean). Writers (CSV rows, GEFF subgraph, chunk-wise masking): bounded stand-in on sampled forests/subsets with/without segmentation.",
+            "contract-based deductive verification (loop invariant, transitive-closure model) + bounded stand-in for the writers"),
     "C16": ("Frame condition 'modifies nothing reachable from the tracks' decided by a may-alias analysis of the real AST of the exporters, savers and 27 queries (35 obligations), "
             "third-party callees assumed read-only; plus deep-snapshot bounded check.", "static frame analysis of the real AST (may-alias) + bounded stand-in"),
     "C17": ("BOUNDED STAND-IN ONLY: sampled column lists from a 28-word vocabulary of similar names, ndim None/3/4, node and edge maps.", "bounded stand-in (no obligation discharged)"),
